@@ -104,10 +104,10 @@ func c18Content(ext, val string) string {
 var c18EntrySpellings = []string{"relative", "dot-slash", "absolute", "via-sub-dotdot"}
 
 type c18Vector struct {
-	Name      string
-	TwinOK    bool // the non-escaping twin is expected to succeed
-	Build     func(root, tdir string) (entry string, err error)
-	TwinWant  string // canonical expected output of the twin
+	Name     string
+	TwinOK   bool // the non-escaping twin is expected to succeed
+	Build    func(root, tdir string) (entry string, err error)
+	TwinWant string // canonical expected output of the twin
 }
 
 func c18Write(path, content string) error {
@@ -382,7 +382,9 @@ func buildC18(tier string) *core.Plan {
 
 	// library: nested SetRoot calls; the outer root's files are outside the inner root
 	lib := core.Space{Name: "library-nested-setroot", N: int64(len(c18DecoyStates)), Chunk: 1,
-		Desc: func(i int64) any { return "SetRoot(root); SetRoot(root/sub); sub/in.yaml has $parent: ../up; up.yaml is " + c18DecoyStates[i].Name },
+		Desc: func(i int64) any {
+			return "SetRoot(root); SetRoot(root/sub); sub/in.yaml has $parent: ../up; up.yaml is " + c18DecoyStates[i].Name
+		},
 		Run: func(c *core.Ctx, i int64) {
 			st := c18DecoyStates[i]
 			T := scratchDir()
@@ -445,7 +447,9 @@ func buildC18(tier string) *core.Plan {
 		}}
 
 	lib2 := core.Space{Name: "library-read-then-setroot", N: int64(len(c18DecoyStates)), Chunk: 1,
-		Desc: func(i int64) any { return "MergeFileLayers(outside/decoy) while unconfined; SetRoot(root); MergeFileLayers(root/in.yaml with $parent: ../outside/decoy); decoy is then " + c18DecoyStates[i].Name },
+		Desc: func(i int64) any {
+			return "MergeFileLayers(outside/decoy) while unconfined; SetRoot(root); MergeFileLayers(root/in.yaml with $parent: ../outside/decoy); decoy is then " + c18DecoyStates[i].Name
+		},
 		Run: func(c *core.Ctx, i int64) {
 			st := c18DecoyStates[i]
 			T := scratchDir()
